@@ -84,6 +84,8 @@ def judge(pid, viols, crashes, spec):
             else:
                 mine.append(v)
         else:
+            if os.environ.get("VERIF_DEBUG"):
+                print("DEBUG CRASH", c.get("name"), c.get("banner"))
             notes["CRASH " + c.get("banner", "")] = notes.get("CRASH " + c.get("banner", ""), 0) + 1
     return mine, hits, notes
 
